@@ -2,6 +2,7 @@
 //      (twin worlds: one byte per call vs. a seeded segmentation; idle flush vs. SCPI_Parse).
 // C09: messages and units are isolated (twin worlds: B after a history A1..An vs. B on a fresh context;
 //      U1;U2 vs. U2 alone).
+#include <cerrno>
 #include "instrument.h"
 
 namespace {
@@ -299,6 +300,7 @@ void generate_c08(Rng &r, const GenOpts &g, Plan &p) {
     MsgGenOpts mo;
     mo.string_nl = !g.avoids("quoted_newline");
     mo.malformed = r.chance(1, 4);
+    mo.expr_quotes = true;
     mo.max_units = 4;
     long nmsg = r.chance(1, 2) ? r.range(1, 2) : r.range(1, 8);
     std::string stream;
@@ -413,6 +415,21 @@ void deliver(World &w, const std::string &s, const std::vector<long> &cuts, size
     }
 }
 
+// A unit answered by one of the library's own status or queue queries: what it prints is the status the history left
+// behind, which the property exempts ("nothing but status and errors carries over").
+bool reads_status(const World &w, size_t first_msg) {
+    for (size_t mi = first_msg; mi < w.msgs.size(); mi++)
+        for (const UnitRec &u : w.msgs[mi].units) {
+            if (u.invocations != 0 || u.out.empty()) continue;
+            std::string t;
+            for (char c : u.text)
+                if (c != ':' && c != ' ' && c != '\t') t += (char) toupper((unsigned char) c);
+            if (t.rfind("*IDN", 0) == 0 || t.rfind("*OPC", 0) == 0 || t.rfind("*TST", 0) == 0 || t.rfind("SYSTVERS", 0) == 0 || t.rfind("SYSTEMVERS", 0) == 0) continue;
+            return true;
+        }
+    return false;
+}
+
 void execute_c09(const Plan &plan, Verdict &v) {
     InstrOpts io;
     WorldCfg cfg;
@@ -455,7 +472,9 @@ void execute_c09(const Plan &plan, Verdict &v) {
             for (auto &x : m.units)
                 if (x.invocations > 0 || !x.errs.empty()) n1++;
         COUNT("unit_pairs");
-        if (a && b && n1 >= 2) {
+        if (reads_status(w1, 0) || reads_status(w2, 0)) {
+            COUNT("b_reads_status_exempt");
+        } else if (a && b && n1 >= 2) {
             auto show = [](const UnitRec &u) {
                 std::string t = fmt("inv=%d tag=%d res=%d", u.invocations, u.tag, u.hres);
                 for (auto &p : u.params) t += fmt(" p[%s \"%s\" %s]", token_name(p.type), c_escape(p.bytes).c_str(), p.typed.c_str());
@@ -518,10 +537,13 @@ void execute_c09(const Plan &plan, Verdict &v) {
     std::vector<long> bcuts = cuts;
     size_t c1 = 0, c2 = 0;
     deliver(w1, B, bcuts, c1);
+    errno = 0;   // the fresh context lives in a fresh process: no conversion before it has left ERANGE behind
     deliver(w2, B, bcuts, c2);
     std::string t1 = observable_trace(w1, m0, true, (size_t) -1, true), t2 = observable_trace(w2, 0, true, (size_t) -1, true);
     std::string e1 = slice_errs(w1, m0), e2 = slice_errs(w2, 0);
-    if (t1 != t2)
+    if (reads_status(w1, m0) || reads_status(w2, 0))
+        COUNT("b_reads_status_exempt");   // a mutated B can turn into a status query: exempt by the property's own words
+    else if (t1 != t2)
         v.fail("msg-leak", "handlers", "B=\"" + c_escape(B).substr(0, 100) + "\" after history vs fresh: " + first_diff(t2, t1));
     else if (w1.out.substr(o0) != w2.out)
         v.fail("msg-leak", "out", "B=\"" + c_escape(B).substr(0, 100) + "\" wrote \"" + c_escape(w1.out.substr(o0)) + "\" after history, \"" + c_escape(w2.out) + "\" fresh");
